@@ -189,6 +189,9 @@ func (c *fctx) seq(list []ast.Stmt, e *env, k cont, ind string) string {
 		}
 		return c.ret(s, e, ind)
 	case *ast.AssignStmt:
+		if head, ok := c.errAssign(s, rest, e, ind); ok {
+			return head + c.seq(rest[1:], e, k, ind)
+		}
 		pre := c.capture(func() { c.assign(s, e) })
 		return lines(pre, ind) + c.seq(rest, e, k, ind)
 	case *ast.DeclStmt:
@@ -277,7 +280,7 @@ func (c *fctx) errPattern(s *ast.IfStmt, e *env) (*ast.CallExpr, bool) {
 	if !ok || e.lookup(fn.Name) != nil {
 		return nil, false
 	}
-	if _, isFn := c.u.g.funcs[fn.Name]; !isFn || fn.Name == "contractUnlockConditions" {
+	if _, isFn := c.u.find(fn.Name); isFn == nil || fn.Name == "contractUnlockConditions" {
 		return nil, false
 	}
 	c.u.translate(fn.Name, call)
@@ -315,6 +318,72 @@ func (c *fctx) errPattern(s *ast.IfStmt, e *env) (*ast.CallExpr, bool) {
 		})
 	}
 	return call, true
+}
+
+// errAssign: `a, b, err := f(args)` (or `=`) for a translated package function f with results
+// (T1, .., Tn, error), immediately followed by `if err != nil { return zero.., err }`:
+// the monadic bind `do (a, b) <- f args;`.  The error variable is not a value of the model: any
+// other use of it is outside the subset (it is never declared).
+func (c *fctx) errAssign(s *ast.AssignStmt, rest []ast.Stmt, e *env, ind string) (string, bool) {
+	if len(s.Rhs) != 1 || len(s.Lhs) < 2 || (s.Tok != token.DEFINE && s.Tok != token.ASSIGN) {
+		return "", false
+	}
+	call, ok := s.Rhs[0].(*ast.CallExpr)
+	if !ok {
+		return "", false
+	}
+	fn, ok := call.Fun.(*ast.Ident)
+	if !ok || e.lookup(fn.Name) != nil || fn.Name == "contractUnlockConditions" {
+		return "", false
+	}
+	if _, fd := c.u.find(fn.Name); fd == nil {
+		return "", false
+	}
+	errID, ok := s.Lhs[len(s.Lhs)-1].(*ast.Ident)
+	if !ok || errID.Name == "_" || e.lookup(errID.Name) != nil {
+		fail(s, "the last result of %s must be assigned to an error variable that is tested at once", fn.Name)
+	}
+	c.u.translate(fn.Name, call)
+	sig := c.u.sigs[fn.Name]
+	if !sig.hasErr || len(sig.results) != len(s.Lhs)-1 {
+		fail(s, "%s does not return %d values and an error", fn.Name, len(s.Lhs)-1)
+	}
+	if len(rest) == 0 {
+		fail(s, "the error of %s must be tested at once with `if %s != nil { return .., %s }`", fn.Name, errID.Name, errID.Name)
+	}
+	is, ok := rest[0].(*ast.IfStmt)
+	if !ok || is.Init != nil || is.Else != nil || len(is.Body.List) != 1 {
+		fail(rest[0], "the error of %s must be tested at once with `if %s != nil { return .., %s }`", fn.Name, errID.Name, errID.Name)
+	}
+	cond, ok := is.Cond.(*ast.BinaryExpr)
+	if !ok || cond.Op != token.NEQ || types.ExprString(cond.X) != errID.Name || types.ExprString(cond.Y) != "nil" {
+		fail(is.Cond, "the error of %s must be tested with `%s != nil`", fn.Name, errID.Name)
+	}
+	r, ok := is.Body.List[0].(*ast.ReturnStmt)
+	if !ok || !c.sig.hasErr || len(r.Results) != len(c.sig.results)+1 || types.ExprString(r.Results[len(r.Results)-1]) != errID.Name {
+		fail(is.Body, "the error branch must be a single `return .., %s`", errID.Name)
+	}
+	for _, x := range r.Results[:len(r.Results)-1] {
+		if pre := c.capture(func() { c.expr(x, e, nil) }); len(pre) != 0 {
+			fail(x, "result next to a propagated error must be a plain value")
+		}
+	}
+	var term string
+	pre := c.capture(func() { term = c.callTerm(call, fn.Name, sig, e) })
+	define := s.Tok == token.DEFINE
+	var names []string
+	for i, l := range s.Lhs[:len(s.Lhs)-1] {
+		id, ok := l.(*ast.Ident)
+		if !ok {
+			fail(l, "target of a function result must be a variable")
+		}
+		names = append(names, c.bindIdent(id, sig.results[i], define, e))
+	}
+	pat := names[0]
+	if len(names) > 1 {
+		pat = "(" + strings.Join(names, ", ") + ")"
+	}
+	return lines(pre, ind) + ind + "do " + pat + " <- " + term + ";\n", true
 }
 
 func (c *fctx) ifStmt(s *ast.IfStmt, rest []ast.Stmt, e *env, k cont, ind string) string {
